@@ -710,3 +710,105 @@ def toy_curve(p, a, b):
 
 
 TOYS = [(11, 1, 6), (13, 2, 4), (11, 0, 2), (17, 1, 3), (23, 1, 1), (13, 0, 3), (11, 0, 1)]
+
+
+# ------------------------------------------------------------------------------------------------
+# structured TLV mutations: every node of the TLV tree of a valid encoding gets its length field attacked
+def _parse_tree(buf, depth=0):
+    """lenient structural parse of a valid DER encoding into [(tag, children-or-None, content)]; descends into
+    constructed tags, into OCTET STRINGs whose content is itself a TLV sequence (PKCS#8) and into BIT STRINGs never"""
+    nodes, pos = [], 0
+    while pos < len(buf):
+        tag, body, nxt = read_tlv(buf, pos)
+        kids = None
+        if tag in (0x30, 0x31) or tag & 0xE0 == 0xA0 or (tag == 0x04 and body[:1] == b"\x30" and depth < 4):
+            try:
+                kids = _parse_tree(body, depth + 1)
+            except DerError:
+                kids = None
+        nodes.append((tag, kids, body))
+        pos = nxt
+    return nodes
+
+
+def _enc_nodes(nodes):
+    out = b""
+    for n in nodes:
+        out += n if isinstance(n, (bytes, bytearray)) else tlv(n[0], _enc_nodes(n[1]) if n[1] is not None else n[2])
+    return out
+
+
+def _paths(nodes, prefix=()):
+    for i, (tag, kids, body) in enumerate(nodes):
+        yield prefix + (i,)
+        if kids is not None:
+            for p in _paths(kids, prefix + (i,)):
+                yield p
+
+
+def _replace(nodes, path, raw, drop_after=False):
+    """copy of the tree with the node at `path` replaced by the raw bytes `raw` (ancestors are re-encoded, so their
+    lengths stay consistent with the bytes present); drop_after removes the siblings that follow at every level"""
+    i = path[0]
+    tag, kids, body = nodes[i]
+    if len(path) == 1:
+        new = raw
+    else:
+        new = (tag, _replace(kids, path[1:], raw, drop_after), body)
+    return nodes[:i] + [new] + ([] if drop_after else nodes[i + 1:])
+
+
+def _node_at(nodes, path):
+    n = nodes[path[0]]
+    return n if len(path) == 1 else _node_at(n[1], path[1:])
+
+
+def _hdr(tag, n):
+    return tlv(tag, bytes(n))[:-n] if n else tlv(tag, b"")
+
+
+def tlv_attacks(buf):
+    """for every TLV node of a valid encoding: declared length one/two more than the content present (with the node last
+    in the buffer and with its siblings still following), header only (`tag 01`, `tag 02`, `tag 81 01`, `tag 82 00 01`
+    with no content), content truncated by 1 and by all but 1 byte under the original declared length, length 0, tag
+    alone, long-form length of the same value, node dropped, node duplicated — ancestors re-encoded consistently, plus
+    the same with the ancestors' original lengths kept -> [(bytes, tag string)]"""
+    try:
+        tree = _parse_tree(bytes(buf))
+    except DerError:
+        return []
+    out = []
+    for path in _paths(tree):
+        tag, kids, body = _node_at(tree, path)
+        content = _enc_nodes(kids) if kids is not None else body
+        n = len(content)
+        variants = []
+        for d in (1, 2):
+            variants.append((_hdr(tag, n + d) + content, "declared+%d" % d))
+        for decl, raw in ((1, bytes([tag, 1])), (2, bytes([tag, 2])), (1, bytes([tag, 0x81, 1])), (1, bytes([tag, 0x82, 0, 1])),
+                          (0x80, bytes([tag, 0x81, 0x80])), (0, bytes([tag, 0x80]))):
+            variants.append((raw, "header-only-%02x" % decl))
+        if n >= 1:
+            variants.append((_hdr(tag, n) + content[:-1], "content-1"))
+            variants.append((_hdr(tag, n) + content[:1], "content-first-byte"))
+            variants.append((_hdr(tag, n), "content-none"))
+            variants.append((_hdr(tag, 1) + content, "declared-1"))
+        variants.append((bytes([tag, 0]), "length-0"))
+        variants.append((bytes([tag]), "tag-alone"))
+        variants.append((b"", "dropped"))
+        variants.append((tlv(tag, content) * 2, "duplicated"))
+        if n < 0x80:
+            variants.append((bytes([tag, 0x81, n]) + content, "long-form-length"))
+        for raw, kind in variants:
+            for drop in (True, False):
+                name = "tlv:%s@%s%s" % (kind, "/".join(map(str, path)), ":last" if drop else "")
+                out.append((_enc_nodes(_replace(tree, path, raw, drop)), name))
+        # the same bytes with the ancestors' ORIGINAL lengths (inconsistent outer lengths)
+        pos_variants = [(_hdr(tag, n + 1) + content, "declared+1"), (bytes([tag, 1]), "header-only-01")]
+        for raw, kind in pos_variants:
+            flat = _enc_nodes(_replace(tree, path, raw, True))
+            orig = bytes(buf)
+            # keep the original outermost header, replace the rest
+            if len(orig) >= 2 and len(flat) >= 2:
+                out.append((orig[:2] + flat[2:], "tlv:%s@%s:outer-length-kept" % (kind, "/".join(map(str, path)))))
+    return out
